@@ -49,6 +49,12 @@ CLAIMED.update({
     text="Code-page part: the compiled tables are evaluated exhaustively against the converter model (CP437 256 codes, ATASCII 128, [0-9A-Za-z ] for five converters) and the model is tied to the code by shape rules on the converters and on the reverse-map initialisers (the iteration range is read from the initialiser's MIR). Attribute part: per IceMode variant a bit-level dependency analysis of from_u8 and as_u8 shows that bit i of as_u8(from_u8(b)) depends on bit i of b and nothing else and that every decoded field bit is read back without interference; flag accessor masks agree pairwise. The three genuine deviations (Unlimited mode's bit 7, bold folded into the foreground) are listed as known findings.",
     design_ref="§4 C18", note=STRUCT_NOTE + " Exact mask arithmetic is decided only up to bit dependencies.", technique="static analysis: exhaustive table check over compiled constants + shape rules + bit-level information-flow analysis of MIR"),
 })
+CLAIMED.update({
+ "C09": dict(category="other",
+    text="Modular invariant proof over all 270 bodies reachable from the 10 text-mode entry points: for each body that takes the cursor, the contract {I} f {I} is checked clause by clause (0 <= x <= width-1, 0 <= y; for Viewdata/Mode 7 also y <= height-1) by abstract interpretation with callees replaced by their contracts, closures included; limit_caret_pos is shown to establish the clauses, its four clamps and get_first_visible_line are matched against the visible-row formula, every store to the cursor row in the scrolling emulations is followed by limit_caret_pos or a reviewed wrap/scroll primitive on every path, the scrollback-growth guard of Caret::lf / Buffer::print_char must depend on nothing but `row + 1 > buffer height`, stores to TerminalState.size keep it >= 1, and the fixed-grid emulations cannot reach any resize/grow routine. The leaks the property itself names (CVT, FF/RIS with scrollback, RCP/DECRC, Avatar moves, unvalidated margins in origin mode) are listed as known findings. The upper row bound of the scrolling emulations is decided only structurally (clamp shape + must-pass-through), not by the interval proof.",
+    design_ref="§4 C09", note=PANIC_NOTE.replace("T1/T2/T4/T5/T6", "T1/T2") + " Assumption A3: cursor coordinates plus a small constant do not wrap. Terminal invariants: the buffer is a terminal buffer; TerminalState.size >= 1x1 (stores checked).",
+    technique="static analysis: modular contract checking by abstract interpretation over MIR + must-pass-through / control-dependence rules + call-graph reachability"),
+})
 NOT_APPLICABLE = {p: PENDING for p in ["C%02d" % i for i in range(1, 21)]}
 NOT_APPLICABLE.update({
  "C05": "value-level: equality of pictures after save->load depends on run-time cell values along data-dependent paths of two separate programs (writer, reader); no structural clause is a genuine necessary condition that is not also a frozen-layout match (DESIGN §5)",
